@@ -92,7 +92,12 @@ def run_variant(v: dict) -> dict:
     finally:
         shutil.rmtree(root, ignore_errors=True)
     res = dict(v, code=code, wall=round(time.time() - t0, 2))
-    if v["kind"] == "M":
+    if v.get("expect_code") is not None:
+        # a change that must make the check refuse to decide (ANALYSIS-ERROR), neither pass nor claim a violation
+        res["status"] = "ok" if code == v["expect_code"] else "wrong-exit"
+        if res["status"] != "ok":
+            res["why"] = f"exit {code}, expected {v['expect_code']}"
+    elif v["kind"] == "M":
         rule = v.get("rule", "")
         named = any((rule in l) for l in out.splitlines() if "VIOLATED" in l) if rule else True
         if code == 1 and named:
